@@ -56,10 +56,16 @@ def work(plugin, outpath):
 
 def main():
     plugin, outpath = sys.argv[1], sys.argv[2]
-    block("S")
+    late = bool(os.environ.get("VERIF_SYNC_AFTER_IMPORT"))
+    if not late:
+        block("S")
     from vp import env
-    env.prepare(os.environ["SAS_DLL_PATH"])
+    env.prepare(os.environ["SAS_DLL_PATH"], create=False)     # creating the cache directory is the library's job
     env.import_sasmodels()
+    if late:
+        # start line placed after the (slow, variable) imports: released workers reach the cache together
+        import numpy, sasmodels.core, sasmodels.kerneldll, sasmodels.direct_model      # noqa: F401,E401
+        block("S")
     nfork = int(os.environ.get("VERIF_FORK", "0"))
     if not nfork:
         os._exit(work(plugin, outpath))
